@@ -10,7 +10,7 @@ CLAIMED = {
              "(range [0,1], monotone, Taylor identity tying the derivative specs to V, permutation symmetry). The parallelepiped and "
              "tetrahedron K-point callers are verified against weights_tetra's contract (12-tetrahedra decomposition, /12, complement). "
              "Bounded stand-in: the same contract evaluated on the real function for seeded random corners. "
-             "Not covered: weights_all_band_groups (CumDOS corollary) is not under contract yet.",
+             "weights_all_band_groups (sea / anti-sea completion) is verified per shape (1-3 bands, all real energies) against the contracts of its callees: blocks disjoint, CumDOS = number of bands above all energies and 0 below; bounded stand-in on real TetraWeights objects incl. independence from earlier calls.",
         note=TB + "; sorted() on 4 values = compare-exchange network; numba compiles the python semantics"),
 }
 
